@@ -34,6 +34,7 @@ FIELDS = ['id', 'name', 'resource', 'estimate', 'spent', 'start', 'end', 'predec
           # names of Task members that are not data attributes: unknown fields as far as a sheet is concerned
           'children', 'all_children', 'all_parents', 'wbs', 'clone', 'to_dict', 'print']
 COLORS = ['91m', '92m', '93m', '94m', '95m', '96m', '97m', '37m']
+THEME_COLORS = COLORS + [None, '']          # None / '' mean "no colour" (pjplan.utils.colored_text)
 long_text = st.text(alphabet=st.sampled_from(list('abcXYZ 0123456789_-.,;:|[]()äж中')), min_size=0, max_size=60)
 name_st = st.one_of(st.none(), long_text, st.sampled_from(['T', 'Design', 'a b', '   lead', 'trail   ']))
 
@@ -48,7 +49,7 @@ def sheet_case(draw, max_tasks=8):
         if draw(st.integers(0, 3)) == 0:
             cu['note'] = draw(st.sampled_from(['n', 'a much longer note than its header', '']))
         if draw(st.integers(0, 5)) == 0:
-            cu['print_color'] = draw(st.sampled_from(COLORS + [None]))
+            cu['print_color'] = draw(st.sampled_from(COLORS + [None, '']))
         if draw(st.integers(0, 3)) == 0:
             t['start'] = specs.iso(specs.BASE + timedelta(days=draw(st.integers(0, 30)), hours=draw(st.integers(0, 23))))
         t['custom'] = cu
@@ -59,8 +60,8 @@ def sheet_case(draw, max_tasks=8):
                         succ=[draw(st.sampled_from(m.order))], pred=[draw(st.sampled_from(m.order))] if draw(st.booleans()) else []))
     spec['ext'] = ext
     fields = draw(st.one_of(st.none(), st.lists(st.sampled_from(FIELDS), min_size=1, max_size=7)))
-    theme = draw(st.one_of(st.none(), st.fixed_dictionaries({'level_colors': st.lists(st.sampled_from(COLORS), max_size=8)}),
-                           st.fixed_dictionaries({'level_colors': st.lists(st.sampled_from(COLORS), max_size=8), 'header_color': st.sampled_from(COLORS)})))
+    theme = draw(st.one_of(st.none(), st.fixed_dictionaries({'level_colors': st.lists(st.sampled_from(THEME_COLORS), max_size=8)}),
+                           st.fixed_dictionaries({'level_colors': st.lists(st.sampled_from(THEME_COLORS), max_size=8), 'header_color': st.sampled_from(THEME_COLORS)})))
     return dict(spec=spec, recv=draw(st.sampled_from(['wbs', 'wbs-repr', 'task', 'task-repr', 'roots', 'children', 'query', 'tasks-list'])),
                 of=draw(st.integers(0, 30)), fields=fields, children=draw(st.booleans()), theme=theme)
 
